@@ -36,6 +36,13 @@ CHECKS["C03"] = dict(
     note="Trusted: the reference classifier (IANA registries as of 2024), the world's resolver model. HTTP/3 not simulated.",
 )
 
+CHECKS["C08"] = dict(
+    level="fault_enumeration",
+    text="Every 1-cut of six canonical request inputs is enumerated (with and without an arrival gap); heads up to the limits, over-limit and malformed heads under 0-3 cuts, byte-at-a-time and random segmentations with arrival gaps are sampled; the reference says what the unsegmented input means (destination, payload, status) and the endpoint must behave identically; a spin is caught by a wall-clock watchdog around the worker process.",
+    design="DESIGN.md section 8 (C08)",
+    note="Trusted: the world's TCP model. 2- and 3-cuts of long inputs are sampled, not enumerated.",
+)
+
 NOT_YET = {
 }
 
